@@ -206,7 +206,7 @@ def size_acyclic(v, limit=400):
 # ========================================================== reference procedures
 def from_datum(d):
     k = d[0]
-    if k == "int": return d[1]
+    if k in ("int", "big"): return d[1]      # "big": the same integer held as a BigInt by the implementation
     if k == "bool": return d[1]
     if k == "char": return Char(d[1])
     if k == "sym": return Sym(chr(97 + d[1]))
@@ -497,6 +497,7 @@ class Ref:
 def enc_datum(d, out):
     k = d[0]
     if k == "int": out += [1, 1 if d[1] < 0 else 0, abs(d[1])]
+    elif k == "big": out += [11, 1 if d[1] < 0 else 0, abs(d[1])]
     elif k == "bool": out += [2, 1 if d[1] else 0]
     elif k == "char": out += [3, d[1]]
     elif k == "sym": out += [4, d[1]]
@@ -530,6 +531,7 @@ def encode(iface, npool, steps):
 def dec_datum(c, i):
     k = c[i]
     if k == 1: return ("int", -c[i + 2] if c[i + 1] == 1 else c[i + 2]), i + 3
+    if k == 11: return ("big", -c[i + 2] if c[i + 1] == 1 else c[i + 2]), i + 3
     if k == 2: return ("bool", c[i + 1] != 0), i + 2
     if k == 3: return ("char", c[i + 1]), i + 2
     if k == 4: return ("sym", c[i + 1]), i + 2
@@ -570,6 +572,7 @@ def decode(case):
 def datum_text(d):
     k = d[0]
     if k == "int": return str(d[1])
+    if k == "big": return "%d[held as a bignum]" % d[1]
     if k == "bool": return "#t" if d[1] else "#f"
     if k == "char": return "#\\x%x" % d[1]
     if k == "sym": return chr(97 + d[1])
@@ -588,7 +591,7 @@ def operand_text(o):
     if o[0] == "p": return "p%d" % o[1]
     if o[0] == "fun": return OPS[o[1]]
     t = datum_text(o)
-    return t if o[0] in ("int", "bool", "char", "flo", "str") else "'" + t
+    return t if o[0] in ("int", "big", "bool", "char", "flo", "str") else "'" + t
 
 
 def describe(case):
@@ -752,8 +755,11 @@ SCALARS = [("int", 0), ("int", 1), ("int", 2), ("int", 3), ("int", -1), ("int", 
            ("sym", 0), ("sym", 1), ("sym", 2), ("sym", 3), ("bool", True), ("bool", False), ("nil",),
            ("char", 97), ("char", 98), ("char", 0x3bb), ("flo", 0x4000000000000000), ("flo", 0x3ff0000000000000),
            ("flo", 0), ("flo", 0x8000000000000000), ("flo", 0x3fe0000000000000),
-           ("str", (97, 98)), ("str", ()), ("int", 2 ** 40)]
-KEYS = [("int", 0), ("int", 1), ("int", 2), ("int", 3), ("int", -1), ("sym", 0), ("sym", 1), ("sym", 2), ("sym", 3),
+           ("str", (97, 98)), ("str", ()), ("int", 2 ** 40),
+           # small integers held as bignums (what arithmetic that passed through a bignum leaves behind): eqv?, equal?,
+           # memv, assv ... must treat them like the same fixnum
+           ("big", 2), ("big", 3), ("big", 0), ("big", -1), ("big", 2 ** 40)]
+KEYS = [("int", 0), ("int", 1), ("int", 2), ("int", 3), ("int", -1), ("big", 1), ("big", 2), ("big", 3), ("sym", 0), ("sym", 1), ("sym", 2), ("sym", 3),
         ("bool", True), ("bool", False), ("nil",), ("char", 97), ("char", 98)]
 
 
